@@ -7,8 +7,8 @@ PROTOS = {"udp": 1, "tcp": 3, "ws": 5}
 
 META = {
     "bounds": "L jobs: every option header / message header byte pattern, sizes up to 70000 (full 16-bit delta and "
-              "17-bit length ranges). B1: every byte string of length n per transport; single pass n<=12 quick / <=16 "
-              "thorough, with accessor walk n<=8 quick / <=11 thorough. Loop bounds by --unwind n+2 with unwinding assertions.",
+              "17-bit length ranges). B1: every byte string of length n per transport; single pass n<=8 quick / <=14 "
+              "thorough, with accessor walk n<=6 quick / <=11 thorough. Loop bounds by --unwind n+2 with unwinding assertions.",
     "outside": "whole messages longer than the per-job n (covered only through the L2 step + loop-glue argument); "
                "TCP inputs are assumed to be exactly one message long (segmentation is C05)",
     "assumptions": [
@@ -28,7 +28,7 @@ def jobs():
                   desc="next_option_safe step from arbitrary running option number",
                   bounds={"running": "0..65535", "avail": "1..70000"}, timeout=300))
     js.append(Job("L2b-one-option-message", "C03/c03.c", "c03_l2_one_option_message", UNITS, extra_src=EXTRA,
-                  unit_defines=UD, unwind=3,
+                  unit_defines=UD, unwind=3, flags=["--arrays-uf-always"],
                   desc="coap_pdu_parse_opt on a single-option message of any size: length limits on the true length, all codes",
                   bounds={"option_length": "0..65804", "number": "0..65535", "code": "1..255"}, timeout=600))
     for pn, pv in PROTOS.items():
@@ -39,22 +39,22 @@ def jobs():
     # B1 single pass
     for pn, pv in PROTOS.items():
         lo = 0 if pn != "udp" else 0
-        for n in range(1, 17):
-            tier = "quick" if n <= 12 else "thorough"
+        for n in range(1, 15):
+            tier = "quick" if n <= 8 else "thorough"
             d = ["PROTO=%d" % pv, "N=%d" % n]
             if (pn == "udp" and n < 4) or n < 2:
                 d.append("WIT_ANY")
             js.append(Job("B1-parse@%s-n%02d" % (pn, n), "C03/c03.c", "c03_b1_parse", UNITS, extra_src=EXTRA,
                           unit_defines=UD, defines=d, unwind=n + 2, tier=tier, group="B1-parse@" + pn,
                           desc="coap_pdu_parse == ref_decode on every %d-byte %s input (single pass)" % (n, pn),
-                          bounds={"n": n, "proto": pn}, timeout=1500 if n > 12 else 400, mem_gb=16))
+                          bounds={"n": n, "proto": pn}, timeout=2400 if n > 8 else 600, mem_gb=16))
     # B1 with accessor walk
     for pn, pv in PROTOS.items():
         for n in range(4 if pn == "udp" else 2, 12):
-            tier = "quick" if n <= 8 else "thorough"
+            tier = "quick" if n <= 6 else "thorough"
             d = ["PROTO=%d" % pv, "N=%d" % n, "WALK"]
             js.append(Job("B1w-walk@%s-n%02d" % (pn, n), "C03/c03.c", "c03_b1_parse", UNITS, extra_src=EXTRA,
                           unit_defines=UD, defines=d, unwind=n + 2, tier=tier, group="B1w-walk@" + pn,
                           desc="parse + coap_option_next/coap_opt_length/coap_opt_value/coap_get_data == reference, %d-byte %s input" % (n, pn),
-                          bounds={"n": n, "proto": pn}, timeout=1500 if n > 8 else 400, mem_gb=16))
+                          bounds={"n": n, "proto": pn}, timeout=2400 if n > 6 else 600, mem_gb=16))
     return js
